@@ -1,13 +1,13 @@
 import ModbusVerif.Spec.Reply
 import ModbusVerif.Lemmas.EncLemmas
 import ModbusVerif.Lemmas.MbapLemmas
+import ModbusVerif.Lemmas.RtuLemmas
 /-
   Lemmas for property C02 (client side: which replies are accepted, what is returned).
   Layers: (A) bit-vector facts, (B) the spec decoders against the model decoders,
   (C) one characterisation of `Core.positive` per core call, (D) the 30 public operations
   against their core call, (E) the call as a function of the transport's read result.
 -/
-set_option linter.unusedSimpArgs false
 namespace Modbus.ClientResp
 open Modbus Modbus.Client Modbus.Spec
 open Modbus.EncLemmas (decodeBools_eq hi_mk16 lo_mk16 mk16_hi_lo toNat_mk16 toNat_mk32 toNat_mk64
@@ -55,19 +55,19 @@ theorem mk64_eq_regs (a b c d e f g h : Byte) :
 
 theorem wireRegs_length (e : Endian) : (b : Bytes) → (wireRegs e b).length = b.length / 2
   | [] => rfl
-  | [_] => by simp [wireRegs, join32, join64, swapEach]
+  | [_] => by simp [wireRegs]
   | _ :: _ :: rest => by
     simp only [wireRegs, List.length_cons, wireRegs_length e rest]; omega
 
 theorem join32_length (w : WordOrder) : (l : List U16) → (join32 w l).length = l.length / 2
   | [] => rfl
-  | [_] => by simp [wireRegs, join32, join64, swapEach]
+  | [_] => by simp [join32]
   | _ :: _ :: rest => by
     simp only [join32, List.length_cons, join32_length w rest]; omega
 
 theorem join64_length (w : WordOrder) : (l : List U16) → (join64 w l).length = l.length / 4
   | [] => rfl
-  | [_] => by simp [wireRegs, join32, join64, swapEach]
+  | [_] => by simp [join64]
   | [_, _] => by simp [join64]
   | [_, _, _] => by simp [join64]
   | _ :: _ :: _ :: _ :: rest => by
@@ -118,7 +118,7 @@ theorem swapPairs_ne_none (b : Bytes) (h : b.length % 2 = 0) : swapPairs b ≠ n
 
 theorem swapEach_length : (b : Bytes) → (swapEach b).length = b.length
   | [] => rfl
-  | [_] => by simp [wireRegs, join32, join64, swapEach]
+  | [_] => by simp [swapEach]
   | _ :: _ :: rest => by simp [swapEach, swapEach_length rest]
 
 theorem bitsOf_length (d : Bytes) (n : Nat) : (bitsOf d n).length = n := by simp [bitsOf]
@@ -885,5 +885,318 @@ theorem run_total (cfg : Cfg) (op : Op) (st : TState) (arrivals : Bytes) (e : En
       obtain ⟨fc, p⟩ := fp
       rw [run_accepted st arrivals e hcore hreq]
       exact pduOutcome_ne_none fc _ hcore
+
+theorem pduOutcome_ok_inv {cfg : Cfg} {op : Op} {c : Core} {fc : Byte} {r : Except Err Pdu} {v : Val}
+    (h : pduOutcome cfg op c fc r = some (.ok v)) :
+    ∃ res raw, r = .ok res ∧ unitCheck cfg.unitId (.ok res) = .ok res ∧
+      c.validate fc res = some (.ok raw) ∧ op.decode cfg raw = some v := by
+  unfold pduOutcome at h
+  split at h
+  · cases h
+  · next res hu =>
+    have hr := unitCheck_ok_inv hu
+    subst hr
+    split at h
+    · cases h
+    · cases h
+    · next raw hval =>
+      refine ⟨res, raw, rfl, hu, hval, ?_⟩
+      cases hd : op.decode cfg raw with
+      | none => rw [hd] at h; cases h
+      | some v' => rw [hd] at h; simp at h; rw [h]
+
+theorem pduOutcome_ok {cfg : Cfg} {op : Op} {c : Core} {fc : Byte} {res : Pdu} {raw : Raw} {v : Val}
+    (hu : unitCheck cfg.unitId (.ok res) = .ok res) (hval : c.validate fc res = some (.ok raw))
+    (hd : op.decode cfg raw = some v) : pduOutcome cfg op c fc (.ok res) = some (.ok v) := by
+  simp only [pduOutcome, hu, hval, hd, Option.map_some]
+
+theorem pduOutcome_err {cfg : Cfg} {op : Op} {c : Core} {fc : Byte} {res : Pdu} {err : Err}
+    (hu : unitCheck cfg.unitId (.ok res) = .ok res) (hval : c.validate fc res = some (.error err)) :
+    pduOutcome cfg op c fc (.ok res) = some (.error err) := by
+  simp only [pduOutcome, hu, hval]
+
+theorem pduOutcome_timeout (cfg : Cfg) (op : Op) (c : Core) (fc : Byte) :
+    pduOutcome cfg op c fc (.error .ioTimeout) = some (.error .requestTimedOut) := rfl
+
+theorem frameFor_mbap {k : Kind} (hk : k.isRtu = false) (st : TState) (p : Pdu) :
+    frameFor k st p = (Mbap.assemble (st.lastTxn + 1) p, st.lastTxn + 1) := by
+  simp [frameFor, hk]
+
+theorem frameFor_rtu {k : Kind} (hk : k.isRtu = true) (st : TState) (p : Pdu) :
+    frameFor k st p = (Rtu.assemble p, st.lastTxn) := by
+  simp [frameFor, hk]
+
+theorem transportRead_mbap {k : Kind} (hk : k.isRtu = false) (txn : U16) (s : Bytes) (e : Ending) :
+    transportRead k txn s e = Mbap.readResponse txn s e := by
+  simp [transportRead, hk]
+
+theorem transportRead_rtu {k : Kind} (hk : k.isRtu = true) (txn : U16) (s : Bytes) (e : Ending) :
+    transportRead k txn s e = Rtu.afterRead (Rtu.readFrame s e) := by
+  simp [transportRead, hk]
+
+theorem transportRead_silence (k : Kind) (txn : U16) :
+    transportRead k txn [] .timeout = (.error .ioTimeout, []) := by
+  cases hk : k.isRtu
+  · rw [transportRead_mbap hk, Mbap.readResponse_nil]; rfl
+  · rw [transportRead_rtu hk]; rfl
+
+theorem byteCounted_total_length {n : Nat} {pl : Bytes} (h : ByteCounted n pl) : pl.length = 1 + n := by
+  have := congrArg List.length h.1
+  rw [List.length_append, h.2] at this
+  simpa using this
+
+theorem corePos_length {c : Core} {fc : Byte} {p : Bytes} (hreq : c.request = .ok (fc, p))
+    {pl : Bytes} (h : CorePos c pl) : pl.length ≤ 252 := by
+  cases c with
+  | readBools di a q =>
+    have := (request_readBools hreq).1
+    have hl := byteCounted_total_length h
+    unfold coilLen at hl; omega
+  | readRegs a qty rt =>
+    have := (request_readRegs hreq).1
+    have hl := byteCounted_total_length h
+    omega
+  | writeCoil a v => simp only [CorePos] at h; rw [h]; cases v <;> simp [be16]
+  | writeCoils a vs => simp only [CorePos] at h; rw [h]; simp [be16]
+  | writeReg e a v => simp only [CorePos] at h; rw [h]; cases e <;> simp [be16, layout16, regs16, regBytes]
+  | writeRegs a pay => simp only [CorePos] at h; rw [h]; simp [be16]
+
+section mbap
+variable {cfg : Cfg} {op : Op} {c : Core} {fc : Byte} {p : Bytes}
+
+theorem positive_length (hcore : op.core cfg = some c) (hreq : c.request = .ok (fc, p))
+    {res : Pdu} (hpos : PositiveReply cfg op res) : res.payload.length ≤ 252 :=
+  corePos_length hreq ((view_pos (core_view hcore) hreq _).mpr hpos.2.2)
+
+theorem sound_mbap (he : cfg.endian ≠ .invalid) (hw : cfg.word ≠ .invalid) (hk : cfg.kind.isRtu = false)
+    (hcore : op.core cfg = some c) (hreq : c.request = .ok (fc, p))
+    {st : TState} {arrivals : Bytes} {e : Ending} {v : Val}
+    (h : (op.run cfg st arrivals e).result = some (.ok v)) :
+    ∃ pre res post,
+      st.pending ++ arrivals = pre ++ Mbap.assemble (st.lastTxn + 1) res ++ post ∧
+      Mbap.Skippable (st.lastTxn + 1) pre ∧ PositiveReply cfg op res ∧
+      v = decodeReply cfg op res ∧ valCount v = requestedCount op ∧
+      (op.run cfg st arrivals e).state = ⟨st.lastTxn + 1, post⟩ := by
+  rw [run_accepted st arrivals e hcore hreq] at h ⊢
+  simp only [frameFor_mbap hk, transportRead_mbap hk] at h ⊢
+  obtain ⟨res, raw, hr, hu, hval, hd⟩ := pduOutcome_ok_inv h
+  cases hrr : Mbap.readResponse (st.lastTxn + 1) (st.pending ++ arrivals) e with
+  | mk r post =>
+    rw [hrr] at hr; simp only at hr; subst hr
+    obtain ⟨pre, hpre, _, hs⟩ := Mbap.readResponse_ok_inv _ _ _ (Nat.le_refl _) hrr
+    obtain ⟨h1, h2, h3⟩ := sound_pdu he hw hcore hreq hu hval hd
+    exact ⟨pre, res, post, hs, hpre, h1, h2, h3, rfl⟩
+
+theorem readResponse_own {txn : U16} {pre : Bytes} (res : Pdu) (post : Bytes) (e : Ending)
+    (hpre : Mbap.Skippable txn pre) (hp : res.payload.length ≤ 252) :
+    Mbap.readResponse txn (pre ++ Mbap.assemble txn res ++ post) e = (.ok res, post) := by
+  rw [List.append_assoc, Mbap.readResponse_skip _ e hpre,
+    Mbap.readResponse_ok (Mbap.readFrame_assemble txn res post e hp), if_pos rfl]
+
+theorem complete_mbap (he : cfg.endian ≠ .invalid) (hw : cfg.word ≠ .invalid) (hk : cfg.kind.isRtu = false)
+    (hcore : op.core cfg = some c) (hreq : c.request = .ok (fc, p))
+    {st : TState} {arrivals pre post : Bytes} {res : Pdu} (e : Ending)
+    (hpre : Mbap.Skippable (st.lastTxn + 1) pre) (hpos : PositiveReply cfg op res)
+    (hs : st.pending ++ arrivals = pre ++ Mbap.assemble (st.lastTxn + 1) res ++ post) :
+    (op.run cfg st arrivals e).result = some (.ok (decodeReply cfg op res)) ∧
+    (op.run cfg st arrivals e).state = ⟨st.lastTxn + 1, post⟩ := by
+  rw [run_accepted st arrivals e hcore hreq]
+  simp only [frameFor_mbap hk, transportRead_mbap hk, hs,
+    readResponse_own res post e hpre (positive_length hcore hreq hpos)]
+  obtain ⟨hu, raw, hval, hd⟩ := complete_pdu he hw hcore hreq hpos
+  exact ⟨pduOutcome_ok hu hval hd, trivial⟩
+
+theorem exception_mbap (hk : cfg.kind.isRtu = false)
+    (hcore : op.core cfg = some c) (hreq : c.request = .ok (fc, p))
+    {st : TState} {arrivals pre post : Bytes} {res : Pdu} {code : Byte} (e : Ending)
+    (hpre : Mbap.Skippable (st.lastTxn + 1) pre) (hex : ExceptionReply cfg op res code)
+    (hs : st.pending ++ arrivals = pre ++ Mbap.assemble (st.lastTxn + 1) res ++ post) :
+    (op.run cfg st arrivals e).result = some (.error (exceptionError code)) ∧
+    (op.run cfg st arrivals e).state = ⟨st.lastTxn + 1, post⟩ := by
+  rw [run_accepted st arrivals e hcore hreq]
+  have hlen : res.payload.length ≤ 252 := by rw [hex.2.2]; simp
+  simp only [frameFor_mbap hk, transportRead_mbap hk, hs, readResponse_own res post e hpre hlen]
+  obtain ⟨hu, hval⟩ := exception_pdu hcore hreq hex
+  exact ⟨pduOutcome_err hu hval, trivial⟩
+
+theorem silence_is_timeout (hcore : op.core cfg = some c) (hreq : c.request = .ok (fc, p))
+    {st : TState} (hp : st.pending = []) :
+    (op.run cfg st [] .timeout).result = some (.error .requestTimedOut) := by
+  rw [run_accepted st [] .timeout hcore hreq]
+  simp only [hp, List.append_nil, transportRead_silence, pduOutcome_timeout]
+
+end mbap
+/-! ### RTU kinds -/
+
+theorem byteCounted_head {n : Nat} (hn : n < 256) {pl : Bytes} (h : ByteCounted n pl) :
+    pl ≠ [] ∧ (pl.getD 0 0).toNat = pl.length - 1 := by
+  have := (byteCounted_iff n hn pl).mp h
+  refine ⟨?_, by omega⟩
+  intro h0; rw [h0] at this; simp at this; omega
+
+theorem corePos_consistent {c : Core} {fc : Byte} {p : Bytes} (hreq : c.request = .ok (fc, p))
+    {res : Pdu} (hfc : res.fc = fc) (h : CorePos c res.payload) : Rtu.Consistent res := by
+  have hlen := corePos_length hreq h
+  refine ⟨?_, ?_, by omega⟩
+  · intro h0
+    rw [h0] at h
+    cases c with
+    | readBools di a q => exact absurd h.1 (by simp)
+    | readRegs a qty rt => exact absurd h.1 (by simp)
+    | writeCoil a v => simp [CorePos, be16] at h
+    | writeCoils a vs => simp [CorePos, be16] at h
+    | writeReg e a v => simp [CorePos, be16] at h
+    | writeRegs a pay => simp [CorePos, be16] at h
+  · rw [hfc]
+    cases c with
+    | readBools di a q =>
+      obtain ⟨hq, hfc'⟩ := request_readBools hreq
+      have := (byteCounted_head (by unfold coilLen; omega) h).2
+      rw [hfc', ← this]; cases di <;> simp [Rtu.expectedResponseLength]
+    | readRegs a qty rt =>
+      obtain ⟨hq, hrt, hfc'⟩ := request_readRegs hreq
+      have := (byteCounted_head (by omega) h).2
+      rw [hfc', ← this]; rcases hrt with rfl | rfl <;> simp [Rtu.expectedResponseLength]
+    | writeCoil a v =>
+      simp only [CorePos] at h
+      rw [request_writeCoil hreq, h]; cases v <;> simp [Rtu.expectedResponseLength, be16]
+    | writeCoils a vs =>
+      simp only [CorePos] at h
+      rw [(request_writeCoils hreq).2, h]; simp [Rtu.expectedResponseLength, be16]
+    | writeReg e a v =>
+      simp only [CorePos] at h
+      rw [request_writeReg hreq, h]
+      cases e <;> simp [Rtu.expectedResponseLength, be16, layout16, regs16, regBytes]
+    | writeRegs a pay =>
+      simp only [CorePos] at h
+      rw [(request_writeRegs hreq).2, h]; simp [Rtu.expectedResponseLength, be16]
+
+theorem exception_consistent {c : Core} {fc : Byte} {p : Bytes} (hreq : c.request = .ok (fc, p))
+    {res : Pdu} {code : Byte} (hfc : res.fc = (fc ||| 0x80)) (hp : res.payload = [code]) :
+    Rtu.Consistent res := by
+  have hexp : ∀ f ∈ ([0x01, 0x02, 0x03, 0x04, 0x05, 0x06, 0x0f, 0x10] : List Byte), ∀ b,
+      Rtu.expectedResponseLength (f ||| 0x80) b = .ok 0 := by
+    intro f hf b
+    simp only [List.mem_cons, List.not_mem_nil, or_false] at hf
+    rcases hf with rfl | rfl | rfl | rfl | rfl | rfl | rfl | rfl <;> rfl
+  refine ⟨by rw [hp]; simp, ?_, by rw [hp]; simp⟩
+  rw [hfc, hp, hexp fc (request_fc hreq)]; rfl
+
+section rtu
+variable {cfg : Cfg} {op : Op} {c : Core} {fc : Byte} {p : Bytes}
+
+theorem positive_consistent (hcore : op.core cfg = some c) (hreq : c.request = .ok (fc, p))
+    {res : Pdu} (hpos : PositiveReply cfg op res) : Rtu.Consistent res :=
+  have hv := core_view hcore
+  corePos_consistent hreq (hpos.2.1.trans (view_fc hv hreq).symm) ((view_pos hv hreq _).mpr hpos.2.2)
+
+theorem sound_rtu (he : cfg.endian ≠ .invalid) (hw : cfg.word ≠ .invalid) (hk : cfg.kind.isRtu = true)
+    (hcore : op.core cfg = some c) (hreq : c.request = .ok (fc, p))
+    {st : TState} {arrivals : Bytes} {e : Ending} {v : Val}
+    (h : (op.run cfg st arrivals e).result = some (.ok v)) :
+    ∃ res post,
+      st.pending ++ arrivals = Rtu.assemble res ++ post ∧ Rtu.Consistent res ∧
+      PositiveReply cfg op res ∧ v = decodeReply cfg op res ∧ valCount v = requestedCount op ∧
+      (op.run cfg st arrivals e).state = ⟨st.lastTxn, post⟩ := by
+  rw [run_accepted st arrivals e hcore hreq] at h ⊢
+  simp only [frameFor_rtu hk, transportRead_rtu hk] at h ⊢
+  obtain ⟨res, raw, hr, hu, hval, hd⟩ := pduOutcome_ok_inv h
+  rw [Rtu.afterRead_fst] at hr
+  cases hrr : Rtu.readFrame (st.pending ++ arrivals) e with
+  | mk r post =>
+    rw [hrr] at hr; simp only at hr; subst hr
+    obtain ⟨hc, hs⟩ := Rtu.readFrame_ok_inv hrr
+    obtain ⟨h1, h2, h3⟩ := sound_pdu he hw hcore hreq hu hval hd
+    exact ⟨res, post, hs, hc, h1, h2, h3, rfl⟩
+
+theorem complete_rtu (he : cfg.endian ≠ .invalid) (hw : cfg.word ≠ .invalid) (hk : cfg.kind.isRtu = true)
+    (hcore : op.core cfg = some c) (hreq : c.request = .ok (fc, p))
+    {st : TState} {arrivals post : Bytes} {res : Pdu} (e : Ending)
+    (hpos : PositiveReply cfg op res)
+    (hs : st.pending ++ arrivals = Rtu.assemble res ++ post) :
+    (op.run cfg st arrivals e).result = some (.ok (decodeReply cfg op res)) ∧
+    (op.run cfg st arrivals e).state = ⟨st.lastTxn, post⟩ := by
+  rw [run_accepted st arrivals e hcore hreq]
+  simp only [frameFor_rtu hk, transportRead_rtu hk, hs,
+    Rtu.readFrame_assemble post e (positive_consistent hcore hreq hpos), Rtu.afterRead_ok]
+  obtain ⟨hu, raw, hval, hd⟩ := complete_pdu he hw hcore hreq hpos
+  exact ⟨pduOutcome_ok hu hval hd, trivial⟩
+
+theorem exception_rtu (hk : cfg.kind.isRtu = true)
+    (hcore : op.core cfg = some c) (hreq : c.request = .ok (fc, p))
+    {st : TState} {arrivals post : Bytes} {res : Pdu} {code : Byte} (e : Ending)
+    (hex : ExceptionReply cfg op res code)
+    (hs : st.pending ++ arrivals = Rtu.assemble res ++ post) :
+    (op.run cfg st arrivals e).result = some (.error (exceptionError code)) ∧
+    (op.run cfg st arrivals e).state = ⟨st.lastTxn, post⟩ := by
+  rw [run_accepted st arrivals e hcore hreq]
+  have hcons : Rtu.Consistent res :=
+    exception_consistent hreq (by rw [hex.2.1, view_fc (core_view hcore) hreq]) hex.2.2
+  simp only [frameFor_rtu hk, transportRead_rtu hk, hs, Rtu.readFrame_assemble post e hcons,
+    Rtu.afterRead_ok]
+  obtain ⟨hu, hval⟩ := exception_pdu hcore hreq hex
+  exact ⟨pduOutcome_err hu hval, trivial⟩
+
+end rtu
+/-! ### the spec decoders are the two-sided inverses of the documented layout -/
+
+theorem wireRegs_layout16 (e : Endian) (he : e ≠ .invalid) (d : Bytes) (hd : d.length % 2 = 0) :
+    (wireRegs e d).flatMap (layout16 e) = d := by
+  obtain ⟨vs, h1, h2⟩ := EncLemmas.u16s_converse e he d hd
+  rw [u16s_eq_wireRegs e d hd] at h1
+  injection h1 with h1
+  rw [h1, ← h2, Enc.uint16sToBytes]
+  congr 1; funext v; exact (EncLemmas.layout16 e v).symm
+
+theorem layout16_wireRegs (e : Endian) (he : e ≠ .invalid) (vs : List U16) :
+    wireRegs e (vs.flatMap (layout16 e)) = vs := by
+  have hf : vs.flatMap (layout16 e) = Enc.uint16sToBytes e vs := by
+    rw [Enc.uint16sToBytes]; congr 1; funext v; exact (EncLemmas.layout16 e v).symm
+  have h := EncLemmas.u16s_roundtrip e he vs
+  rw [u16s_eq_wireRegs e _ (by
+    rw [Enc.uint16sToBytes, flatMap_length_const _ 2 (u16bytes_length e)]; omega)] at h
+  rw [hf]; injection h
+
+theorem join32_layout32 (e : Endian) (w : WordOrder) (he : e ≠ .invalid) (hw : w ≠ .invalid)
+    (d : Bytes) (hd : d.length % 4 = 0) :
+    (join32 w (wireRegs e d)).flatMap (layout32 e w) = d := by
+  obtain ⟨vs, h1, h2⟩ := EncLemmas.u32s_converse e w he hw d hd
+  rw [u32s_eq_join e w he hw d hd] at h1
+  injection h1 with h1
+  rw [h1, ← h2]
+  congr 1; funext v; exact (EncLemmas.layout32 e w he hw v).symm
+
+theorem layout32_join32 (e : Endian) (w : WordOrder) (he : e ≠ .invalid) (hw : w ≠ .invalid)
+    (vs : List U32) : join32 w (wireRegs e (vs.flatMap (layout32 e w))) = vs := by
+  have hf : vs.flatMap (layout32 e w) = vs.flatMap (Enc.uint32ToBytes e w) := by
+    congr 1; funext v; exact (EncLemmas.layout32 e w he hw v).symm
+  have h := EncLemmas.u32s_roundtrip e w he hw vs
+  rw [u32s_eq_join e w he hw _ (by
+    rw [flatMap_length_const _ 4 (u32bytes_length e w)]; omega)] at h
+  rw [hf]; injection h
+
+theorem join64_layout64 (e : Endian) (w : WordOrder) (he : e ≠ .invalid) (hw : w ≠ .invalid)
+    (d : Bytes) (hd : d.length % 8 = 0) :
+    (join64 w (wireRegs e d)).flatMap (layout64 e w) = d := by
+  obtain ⟨vs, h1, h2⟩ := EncLemmas.u64s_converse e w he hw d hd
+  rw [u64s_eq_join e w he hw d hd] at h1
+  injection h1 with h1
+  rw [h1, ← h2]
+  congr 1; funext v; exact (EncLemmas.layout64 e w he hw v).symm
+
+theorem layout64_join64 (e : Endian) (w : WordOrder) (he : e ≠ .invalid) (hw : w ≠ .invalid)
+    (vs : List U64) : join64 w (wireRegs e (vs.flatMap (layout64 e w))) = vs := by
+  have hf : vs.flatMap (layout64 e w) = vs.flatMap (Enc.uint64ToBytes e w) := by
+    congr 1; funext v; exact (EncLemmas.layout64 e w he hw v).symm
+  have h := EncLemmas.u64s_roundtrip e w he hw vs
+  rw [u64s_eq_join e w he hw _ (by
+    rw [flatMap_length_const _ 8 (u64bytes_length e w)]; omega)] at h
+  rw [hf]; injection h
+
+theorem bitsOf_packBools (bs : List Bool) : bitsOf (packBools bs) bs.length = bs := by
+  have h := EncLemmas.decode_encode bs
+  rw [EncLemmas.encodeBools_eq_spec,
+    decodeBools_eq_bitsOf _ _ (by simp [packBools])] at h
+  injection h
 
 end Modbus.ClientResp
